@@ -327,4 +327,11 @@ def rb_binding_agreement(ctx: Ctx) -> None:
     binding_agreement(ctx)
 
 
-RULES = [r1_generator_pairing, r2_replay_agreement, r3_lookup_chain, r4_export, r5_who_may_write, r6_macro_arguments_in_caller_scope, rb_binding_agreement]
+def rm_no_process_lifetime_results(ctx: Ctx) -> None:
+    """memoising decorators, module-level stores and mutable defaults on this property's mechanism (shared rule, caches.py)"""
+    from ..caches import state_rule
+
+    state_rule(ctx)
+
+
+RULES = [r1_generator_pairing, r2_replay_agreement, r3_lookup_chain, r4_export, r5_who_may_write, r6_macro_arguments_in_caller_scope, rb_binding_agreement, rm_no_process_lifetime_results]
